@@ -44,7 +44,8 @@ CLAIMS = {
              "I_j + G_(j+1) + not I_(j+1) must be refuted by a run the Lean machine accepts (C09_path_from_splits); (2) mirror: on "
              "propositional instances the printed proof with its leaves assigned to the groups is labelled for both cuts around "
              "every middle group by the Lean model, which checks the hypotheses of the theorem (labelsOK, structOk, empty root) and "
-             "computes both interpolants; they must be logically equal to the two printed ones. Partial: proof-sensitive labelling "
+             "computes both interpolants; they must be logically equal to the two printed ones. C09_farkas_path_leaf: the same step for "
+             "the Farkas interpolants of an arithmetic conflict (not composed with the resolution part). Partial: proof-sensitive labelling "
              "systems, theory interpolants and proof reduction are covered by the certified re-decision only.",
         design_ref="5 C09"),
     "C17": dict(
@@ -141,6 +142,21 @@ CLAIMS = {
              "theory lemmas, every sat must come with a model the Lean evaluator validates on all accepted assertions; rejections "
              "are counted, abnormal termination is a violation.",
         design_ref="5 C29"),
+    "C30": dict(
+        technique="Lean 4 proof (trail machine of the CDCL search loop: a base-3 reading of the trail grows with every decision, propagation and backjump, so a restart period has fewer than 3^n steps and a run under growing conflict limits is finite) tied by replaying the trail events of real runs on the machine, plus a time-limited search over engines and options - partial",
+        text="PARTIAL: termination of the single steps (propagation, conflict analysis, Simplex pivoting, congruence closure, lemma "
+             "generation), of the lookahead engines and the growth of the floating-point restart policy are searched for with a time "
+             "limit, not proved. Theorems: C30_period_finite (a run of the trail machine without restart has fewer than 3^n steps, "
+             "whatever clauses, theories and heuristics do), C30_run_finite (with conflict limits that reach 3^n every run from the "
+             "empty trail has fewer than (i0+1)*3^n steps), C30_restart_needs_limit. Tie: guarded hooks make CoreSMTSolver emit every "
+             "enqueue, truncation, conflict, restart and start of search(); the events of every run of generated non-integer "
+             "scripts (histories, single queries, random 3-SAT, random difference constraints; several restart settings) are "
+             "replayed by the executable machine: each must be a legal step (fresh variable, backjump onto the first literal of a "
+             "decision level, restart only after the reported conflict limit with the same conflict count). Search: the same "
+             "instances, which the reference solver decides at once, are run under engine and tracking options (lookahead, picky, "
+             "ghost variables, proofs, cores, interpolants, non-incremental, restart settings) with a limit of 20 s, repeated alone "
+             "with 90 s before a missing answer is reported.",
+        design_ref="13 C30"),
     "C13": dict(
         technique="Lean 4 proof (preprocessing rewrites are equivalences / conservative extensions for every term and interpretation) tied by per-check comparison of assertions and engine roots with Lean-validated models",
         text="Theorems: substitution by equal-valued targets keeps every value; variable elimination by a definition is a "
@@ -347,14 +363,6 @@ def main():
 
 
 NA = {
-    "C30": "Termination of check-sat outside integer arithmetic is a liveness property of unbounded loops (CDCL with clause deletion and "
-           "restarts, lookahead tree search, Simplex pivoting with a late switch to Bland's rule, theory combination). A proof in this "
-           "family needs a model of those loops together with a well-founded measure that the real engines provably decrease, and a tie "
-           "that observes the measure on every step of the real run; neither a finite model nor a trace check can exhibit divergence, "
-           "and a timeout on sampled inputs is a test, not a theorem. No such measure could be established for the engines as they are "
-           "(learnt clauses are deleted, the pivoting rule is heuristic for the first #columns rounds) in the time of this effort, so the "
-           "property is not claimed rather than decided by timeouts. What the other checks do observe: every run of the C01-C05 corpora "
-           "that exceeds its time limit is counted in the evidence (`timeouts`) instead of being judged.",
 }
 HOOK_COMMITS = []
 if __name__ == "__main__":
